@@ -126,6 +126,58 @@ def s1_producer(src, nsends):
     src.check(res["late_send"] == "ProducerClosed", "send() after stop() did not raise ProducerClosed: " + str(res["late_send"]), **info)
 
 
+def s1_producer_fatal(src):
+    """stop() of a transactional producer whose sender task already died with a fatal error"""
+    from . import txnsim
+    cluster = simkafka.Cluster(nodes=(0, 1), topics={"t": 2, "in": 1})
+    faults = txnsim.TxnFaults(src, ("fatal",), 3, 1, apis={24, 26, 0})
+    cluster.fault_fn = faults
+    commit_first = src.flag("healthy_transaction_first")
+    res = {}
+
+    async def main(loop):
+        with simkafka.installed(cluster):
+            p = await txnsim.open_producer(cluster)
+            if commit_first:
+                await p.begin_transaction()
+                await p.send("t", b"a", partition=0)
+                await p.commit_transaction()
+            faults.enabled = True
+            try:
+                await p.begin_transaction()
+                f = await p.send("t", b"b", partition=1)
+                await asyncio.wait_for(p.commit_transaction(), timeout=20)
+                res["commit"] = "ok"
+            except (E.KafkaError, E.IllegalOperation, asyncio.TimeoutError) as e:
+                res["commit"] = type(e).__name__
+            await asyncio.sleep(0.05)
+            st = asyncio.ensure_future(p.stop())
+            done, _ = await asyncio.wait([st], timeout=60)
+            res["stop_returned"] = bool(done)
+            if done:
+                res["stop_exc"] = "CancelledError" if st.cancelled() else (repr(st.exception()) if st.exception() else None)
+            else:
+                st.cancel()
+            res["left"] = await _leftovers_settled(loop, cluster)
+
+    try:
+        vloop.run(main, max_vtime=400)
+    except vloop.Deadlock as e:
+        res["deadlock"] = str(e)
+    info = dict(faults=faults.log, commit=res.get("commit"), healthy_first=commit_first)
+    src.note(info)
+    ok = bool(res.get("stop_returned")) and "deadlock" not in res
+    if src.twin:
+        ok = not ok
+    src.check(ok, "producer.stop() did not return after the sender died", **info)
+    if not res.get("stop_returned"):
+        return
+    src.check(res["stop_exc"] is None, "producer.stop() raised " + str(res["stop_exc"]) + " (the sender's fatal error) instead of closing", **info)
+    left = res["left"]
+    src.check(not left["tasks"], "tasks of the producer still running after stop()", tasks=left["tasks"][:3], **info)
+    src.check(not left["conns"], "connections still open after stop()", conns=left["conns"], **info)
+
+
 # ------------------------------------------------------------------------------------------ group-less consumer
 
 
@@ -337,6 +389,11 @@ def harnesses(tier):
                   shape="S", symbolic_vars="choices: idempotence, cluster mode (healthy / one broker down / all down), when the mode switches, stop() after k sends",
                   bounds={"sends": n, "modes": MODES}, stubs=["SimConn broker model", "virtual-time loop"],
                   max_seconds=400, twin_max_paths=50) for n in ([3] if q else [3, 5])]
+    hs.append(Harness(name="S1_producer_after_fatal_error", fn=s1_producer_fatal,
+                      functions=[AIOKafkaProducer.stop, Sender.close, Sender._fail_all], shape="S",
+                      symbolic_vars="choices: fatal error code (fencing, sequence, transactional-id authorization) at one of the first AddPartitionsToTxn/EndTxn/Produce requests; healthy transaction first or not",
+                      bounds={"faultable_requests": 3}, stubs=["SimConn + simulated transaction coordinator", "virtual-time loop"],
+                      twin_max_paths=20))
     for shape in (["v2_plain"] if q else ["v2_plain", "txn_mixed"]):
         hs.append(Harness(name=f"S1_consumer_{shape}", fn=s1_consumer, params={"shape": shape},
                           functions=[AIOKafkaConsumer.stop, Fetcher.close, AIOKafkaClient.close], shape="S",
